@@ -21,7 +21,7 @@ TRUSTED_BASE = [
     "Coq 8.16.1 kernel; Print Assumptions: closed under the global context",
     "oracle: every submission history is run twice on the real code, as is (warm) and with all caches cleared before each submission (cold)",
 ]
-ASSUMPTIONS = ["A-hash: Python's hash of the frozen schema structure is collision-free on the generated schemas"]
+ASSUMPTIONS = ["none beyond the generated families (the cache holds the frozen structures themselves since df705fe: no assumption on hash collisions)"]
 
 
 class SubRule(pool.PoolValidator):
@@ -29,6 +29,12 @@ class SubRule(pool.PoolValidator):
         """{'type': 'boolean'}"""
         if constraint and isinstance(value, int) and not value % 2:
             self._error(field, "not odd")
+
+    def _validate_offsets(self, constraint, field, value):
+        """{'type': 'list', 'schema': {'type': 'integer'}}"""
+
+    def _validate_offset(self, constraint, field, value):
+        """{'type': 'integer', 'min': -1}"""
 
 
 class SubType(pool.PoolValidator):
@@ -44,26 +50,47 @@ def clear_all():
         c.clear_caches()
 
 
-def submit(cls_name, entry, schema, doc):
+def submit(cls_name, entry, schema, doc, tag=None, registries=None):
+    """registries: None, or (rules-set definitions, schema definitions, 'bound' | 'module')"""
     cls = CLASSES[cls_name]
+    kw = {}
+    saved = None
+    if registries is not None:
+        import refs
+        rdefs, sdefs, how = registries
+        if how == 'bound':
+            kw['rules_set_registry'], kw['schema_registry'] = refs.make_registries(copy.deepcopy(rdefs), copy.deepcopy(sdefs))
+        else:
+            saved = (dict(cerberus.rules_set_registry.all()), dict(cerberus.schema_registry.all()))
+            cerberus.rules_set_registry.clear(); cerberus.schema_registry.clear()
+            cerberus.rules_set_registry.extend(copy.deepcopy(rdefs)); cerberus.schema_registry.extend(copy.deepcopy(sdefs))
+    try:
+        return _submit(cls, entry, schema, doc, kw)
+    finally:
+        if saved is not None:
+            cerberus.rules_set_registry.clear(); cerberus.schema_registry.clear()
+            cerberus.rules_set_registry.extend(saved[0]); cerberus.schema_registry.extend(saved[1])
+
+
+def _submit(cls, entry, schema, doc, kw):
     try:
         if entry == "constructor":
-            v = cls(copy.deepcopy(schema))
+            v = cls(copy.deepcopy(schema), **kw)
         elif entry == "setter":
-            v = cls({})
+            v = cls({}, **kw)
             v.schema = copy.deepcopy(schema)
         elif entry == "validate-arg":
-            v = cls({})
+            v = cls({}, **kw)
             v.validate({}, copy.deepcopy(schema))
         elif entry == "update":
-            v = cls({})
+            v = cls({}, **kw)
             v.schema.update(copy.deepcopy(schema))
         elif entry == "setitem":
-            v = cls({})
+            v = cls({}, **kw)
             for f, r in schema.items():
                 v.schema[f] = copy.deepcopy(r)
         else:   # allow_unknown setter: the first field's rules as rule set for unknown fields
-            v = cls({})
+            v = cls({}, **kw)
             v.allow_unknown = copy.deepcopy(next(iter(schema.values()), {})) or True
     except cerberus.SchemaError:
         return "rejected"
@@ -115,7 +142,7 @@ def run_history(history, cold):
             continue
         if cold:
             clear_all()
-        out.append(submit(*step[:4]))
+        out.append(submit(*step[:6]))
     return out
 
 
@@ -171,6 +198,13 @@ def twins(g, rng):
             fam.append(({'a': {op: [copy.deepcopy(good), {'nosuchrule': 1}]}}, 'of-tail'))
             fam.append(({'a': {op: [copy.deepcopy(good), {'type': 'nosuchtype'}]}}, 'of-tail'))
             fam.append(({'a': {'type': 'list', 'schema': {op: [copy.deepcopy(good), {'required': 'yes'}]}}}, 'of-tail'))
+    # scalars as MEMBERS of a sequence constraint whose members are typed (a custom rule of SubRule), and scalars that hash alike
+    for v in ([1], [1.0], [True], [1, 2], [1, 2.0], (1,), (1.0,)):
+        fam.append(({'a': {'offsets': v}}, 'typed-member'))
+        fam.append(({'a': {'type': 'dict', 'valuesrules': {'offsets': v}}}, 'typed-member'))
+    for v in (-1, -2, -1.0, 0):
+        fam.append(({'a': {'offset': v}}, 'typed-member'))
+        fam.append(({'a': {'anyof': [{'offset': v}]}}, 'typed-member'))
     # subclass-only rules and types
     fam.append(({'a': {'is_odd': True}}, 'subclass-only'))
     fam.append(({'a': {'type': 'list', 'schema': {'is_odd': True}}}, 'subclass-only'))
@@ -235,7 +269,8 @@ def run(ctx):
                 violations.append({"signature": "warm-vs-cold:%s" % tag,
                                    "what": "submission %d (%s %s, %s): warm %r, with the cache cleared just before %r; earlier submissions: %s" % (
                                        i, step[0], step[1], tag, w, c, prev_tags),
-                                   "replay": {"history": [h if h == "clear" else [h[0], h[1], common.jval(h[2]), common.jval(h[3]), h[4]] for h in keep + [step]]}})
+                                   "replay": {"history": [h if h == "clear" else [h[0], h[1], common.jval(h[2]), common.jval(h[3]), h[4]] + (
+                                       [[common.jval(h[5][0]), common.jval(h[5][1]), h[5][2]]] if len(h) > 5 else []) for h in keep + [step]]}})
                 return
 
     # random histories
@@ -302,6 +337,32 @@ def run(ctx):
                     check([first, second])
                     check([second, first])
                     dist["spelling_twin_pairs"] += 2
+    # systematically: typed members / hash-alike scalars, every ordered pair on the class that knows the rules
+    tm = [p for p in pool_schemas if p[1] == 'typed-member']
+    for a in tm:
+        for b in tm:
+            if a is not b and same_shape(a[0], b[0]):
+                check([("SubRule", "constructor", a[0], doc, a[1]), ("SubRule", rng.choice(["constructor", "setter", "update"]), b[0], doc, b[1])])
+                dist["typed_member_pairs"] += 1
+    # systematically: one schema holding references, submitted under registries that give the names different meanings
+    # (validator-bound or module-level; a valid definition, an ill-formed one, another valid one, none at all)
+    ref_schemas = [{'a': 'r'}, {'a': {'type': 'dict', 'valuesrules': 'r'}}, {'a': {'type': 'dict', 'schema': {'x': 'r'}}},
+                   {'a': {'type': 'list', 'schema': 'r'}}, {'a': {'type': 'list', 'items': ['r']}}, {'a': {'anyof': [{'type': 'dict', 'keysrules': 'r'}]}},
+                   {'a': {'type': 'dict', 'schema': 's'}}, {'a': {'type': 'list', 'schema': {'type': 'dict', 'schema': 's'}}},
+                   {'a': {'type': 'dict', 'allow_unknown': 'r'}},
+                   {'a': {'type': 'dict', 'valuesrules': 'r'}, 'b': {'type': 'dict', 'schema': {'c': {'type': 'dict', 'valuesrules': 'r'}}}}]
+    worlds = [({'r': {'type': 'string'}}, {'s': {'x': {'type': 'string'}}}), ({'r': {'type': 'strin'}}, {'s': {'x': {'type': 'strin'}}}),
+              ({'r': {'type': 'integer', 'min': 1}}, {'s': {'x': 'r'}}), ({}, {}), ({'r': {'nosuchrule': 1}}, {'s': {'x': {'required': 'yes'}}})]
+    rdoc = {'a': {'x': 'v'}}
+    for s in ref_schemas:
+        for w1 in worlds:
+            for w2 in worlds:
+                if w1 is w2:
+                    continue
+                for how in (('bound', 'module') if thorough else (rng.choice(['bound', 'module']),)):
+                    e1, e2 = rng.choice(eps[:5]), rng.choice(eps[:5])
+                    check([("Validator", e1, s, rdoc, 'registry-world', w1 + (how,)), ("Validator", e2, s, rdoc, 'registry-world', w2 + (how,))])
+                    dist["registry_world_pairs"] += 1
     # all ordered pairs of the twin families through the constructor, per class pair
     tw = [p for p in pool_schemas if p[1] != 'plain' and p[1] != 'corrupt']
     pairs = list(itertools.permutations(range(len(tw)), 2))
@@ -323,6 +384,7 @@ def run(ctx):
 
 
 def replay(rp):
-    hist = [h if h == "clear" else (h[0], h[1], common.unjson(h[2]), common.unjson(h[3]), h[4]) for h in rp["history"]]
+    hist = [h if h == "clear" else (h[0], h[1], common.unjson(h[2]), common.unjson(h[3]), h[4]) + (
+        ((common.unjson(h[5][0]), common.unjson(h[5][1]), h[5][2]),) if len(h) > 5 else ()) for h in rp["history"]]
     print(run_history(hist, False)); print(run_history(hist, True))
     return 0
